@@ -217,7 +217,16 @@ def comp_cases(ctx, rnd, n):
         hbody = hg.comp({hp: "Jet"}, rnd.randint(0, 1), kind="list")
         hsrc += f"def hc{hi}({hp}): return {hbody}\n"
         helpers.append(f"hc{hi}")
-    for hi, hname in enumerate(helpers):
+    # "let"-style helpers: the body is a called lambda whose own arguments are constants, with a comprehension inside that binds a
+    # name the CALL SITE's arguments use and reads the helper's parameters (two nested inlinings, closure-style use of the outer one)
+    for hi in range(2):
+        tv = rnd.choice(["j", "q", "t", "jet"])
+        hsrc += f"def hl{hi}(a, f): return (lambda s: [{tv}.pt * s + f for {tv} in a.trks if {tv}.x > 0])({hi + 2})\n"
+        v = rnd.choice(["j", "q", "jet", "t"])
+        form = rnd.choice([f"lambda e: [hl{hi}({v}, {v}.pt) for {v} in e.jets]", f"lambda e: e.jets.Select(lambda {v}: hl{hi}({v}, {v}.eta + e.met))", f"lambda e: [(lambda w: hl{hi}(w, {v}.x))({v}) for {v} in e.jets]"])
+        batch.append((form, {"let-style-helper-with-comprehension"}))
+        helpers.append(f"hl{hi}")
+    for hi, hname in enumerate(helpers[:3]):
         v = rnd.choice(["j", "q", "jet", "t"])
         form = rnd.choice([f"lambda e: [{hname}({v}) for {v} in e.jets]", f"lambda e: e.jets.Select(lambda {v}: {hname}({v}))", f"lambda e: [({v}.pt, {hname}({v})) for {v} in e.jets if len({hname}({v})) >= 0]", f"lambda e: {hname}(e.jets[0])"])
         batch.append((form, {"helper-with-comprehension-over-its-parameter"}))
@@ -326,15 +335,18 @@ def ctor_case(ctx, rnd, i):
         rnd.shuffle(kw)
     how = "well-formed"
     if mal:
-        how = rnd.choice(["surplus-positional", "unknown-keyword"])
+        how = rnd.choice(["surplus-positional", "unknown-keyword", "double-star-mapping"])
         if how == "surplus-positional":
             pos = [astx.parse_expr(f"e.z{j}") for j in range(nf + 1)]
             kw = []
+        elif how == "double-star-mapping":
+            # C(e.a, **e.rest): which fields the mapping binds cannot be known - an argument that is not one of the fields
+            kw.append((None, astx.parse_expr("e.rest")))
         else:
             kw.append(("nosuchfield", astx.parse_expr("e.q")))
     call = ast.Call(func=ast.Constant(value=cls), args=[astx.clone(p) for p in pos], keywords=[ast.keyword(arg=n, value=astx.clone(v)) for n, v in kw])
     proj = rnd.choice([None, "attr", "sub"])
-    text = f"{cls.__name__}({', '.join([astx.unparse(p) for p in pos] + [f'{n}={astx.unparse(v)}' for n, v in kw])}) [{kind}, fields {names}, {ndef} defaults]"
+    text = f"{cls.__name__}({', '.join([astx.unparse(p) for p in pos] + [(f'{n}=' if n else '**') + astx.unparse(v) for n, v in kw])}) [{kind}, fields {names}, {ndef} defaults]"
     key = text
     out_of_order = [n for n, _ in kw] != [n for n in names if n in dict(kw)]
     nt = nf >= 2 and out_of_order
@@ -342,6 +354,8 @@ def ctor_case(ctx, rnd, i):
     ctx.count("ctor:" + kind)
     witness = {"ctor": text}
     try:
+        if any(n is None for n, _ in kw):
+            raise TypeError("mapping argument")
         bound = inspect.signature(cls).bind(*pos, **dict(kw))
         expect_error = False
     except TypeError:
